@@ -531,9 +531,9 @@ theorem run_never_diverges (P : Prims) (hB : Binding P) (c : Client) (s : Server
 
 section Examples
 
-def exCA : X509.Cert := ⟨1, 100, 100, 2000, 2000, none, none, -48, 48, true, true, -1, 96, [], [], [], "CA", [], false, false⟩
+def exCA : X509.Cert := ⟨1, 100, 100, 2000, 2000, none, none, -48, 48, true, true, -1, 96, [], [], [], "CA", [], false, false, 3⟩
 def exLeaf (id subj key ku : Nat) (eku : List Nat) : X509.Cert :=
-  ⟨id, subj, 100, key, 2000, none, none, -24, 24, false, false, -1, ku, [], [], ["10.1.2.3"], "", eku, false, false⟩
+  ⟨id, subj, 100, key, 2000, none, none, -24, 24, false, false, -1, ku, [], [], ["10.1.2.3"], "", eku, false, false, 3⟩
 def exTable : List (Nat × PCert) :=
   [(10, ⟨exLeaf 10 110 2001 1 [1], true⟩), (11, ⟨exLeaf 11 111 2002 28 [1], true⟩), (12, ⟨exLeaf 12 112 2003 1 [2], true⟩),
    (13, ⟨exLeaf 13 113 2004 28 [1], true⟩)]
